@@ -65,3 +65,31 @@ Proof.
     - destruct (IH sa (step cfB sb e)) as [A B]. split; [exact A | exact B]. }
   apply H.
 Qed.
+
+(** Two streams on one graph (each possibly created late: [sinit] is pure, so creation time is
+    irrelevant in the model), their events interleaved arbitrarily ([true] = first stream). *)
+Definition sstep2 (scA scB : scfg) (st : state * state) (e : bool * sevent) : state * state :=
+  if fst e then (fst (sstep scA (fst st) (snd e)), snd st) else (fst st, fst (sstep scB (snd st) (snd e))).
+
+Definition srun2 (scA scB : scfg) (evs : list (bool * sevent)) : state * state :=
+  fold_left (sstep2 scA scB) evs (sinit scA, sinit scB).
+
+Definition proj_sevents (which : bool) (evs : list (bool * sevent)) : list sevent :=
+  map snd (filter (fun e => Bool.eqb (fst e) which) evs).
+
+Theorem sindependent : forall scA scB evs,
+  fst (srun2 scA scB evs) = srun scA (proj_sevents true evs) /\
+  snd (srun2 scA scB evs) = srun scB (proj_sevents false evs).
+Proof.
+  intros scA scB evs. unfold srun2, srun.
+  assert (H : forall sa sb,
+            fst (fold_left (sstep2 scA scB) evs (sa, sb)) =
+              fold_left (fun s e => fst (sstep scA s e)) (proj_sevents true evs) sa /\
+            snd (fold_left (sstep2 scA scB) evs (sa, sb)) =
+              fold_left (fun s e => fst (sstep scB s e)) (proj_sevents false evs) sb).
+  { induction evs as [|[b e] evs IH]; intros sa sb; [split; reflexivity|].
+    cbn [fold_left]. unfold sstep2 at 2 4. simpl fst. simpl snd. destruct b; simpl.
+    - destruct (IH (fst (sstep scA sa e)) sb) as [A B]. split; [exact A | exact B].
+    - destruct (IH sa (fst (sstep scB sb e))) as [A B]. split; [exact A | exact B]. }
+  apply H.
+Qed.
